@@ -269,9 +269,12 @@ impl ColumnType<'_> {
             ColumnType::Native(n) => n.type_size_for_vector(),
             ColumnType::Tuple(_) => None,
             ColumnType::Collection { .. } => None,
+            // The size of nested fixed-size vectors is a product of dimensions that come from the wire
+            // and can exceed `usize` (e.g. five levels of dimension 65535). Saturate instead of
+            // overflowing: no buffer can hold such a value, so handling it ends in a length error.
             ColumnType::Vector { typ, dimensions } => typ
                 .type_size_for_vector()
-                .map(|size| size * usize::from(*dimensions)),
+                .map(|size| size.saturating_mul(usize::from(*dimensions))),
             ColumnType::UserDefinedType { .. } => None,
         }
     }
